@@ -235,7 +235,37 @@ def r6(ctx):
         ctx.check("ExecutionInstrumentMap::" + fn, ok, "translates only the map's own exchange", key="own-exchange")
 
 
+def r7(ctx):
+    """engine side: every account event is applied to the asset / instrument state selected by the event's own key"""
+    b = ctx.fbody(name="update_from_account", self_adt="barter::engine::state::EngineState", trait="")
+    n = 0
+    for bi, t, tm in b.real_calls():
+        s = mir.short(tm[1])
+        if s in ("AssetStates::asset_index_mut", "InstrumentStates::instrument_index_mut"):
+            n += 1
+            key = render(tm[2][1])
+            want_tail = ".asset" if s.startswith("AssetStates") else ".instrument"
+            okk = "event.kind.as:" in key and key.endswith(want_tail) and render(tm[2][0]) == ("self.assets" if s.startswith("AssetStates") else "self.instruments")
+            # the state selected is then updated with the payload that carries that key
+            users = [(bj, t2, tm2) for bj, t2, tm2 in b.real_calls() if tm2[2] and tm2[2][0] == tm or (tm2[2] and tm2[2][0][0] == "proj" and tm2[2][0][1] == tm)]
+            payload = key[:-len(want_tail)]
+            for strip in (".key", ):
+                if payload.endswith(strip):
+                    payload = payload[:-len(strip)]
+            oku = bool(users) and all(any(payload in render(a) or render(a) == "event" for a in u[2][2][1:]) for u in users)
+            ctx.check("EngineState::update_from_account:%s(%s)" % (s.split("::")[-1], key[key.index("event.kind.") + len("event.kind."):][:50] if "event.kind." in key else key[:50]), okk and oku,
+                      "the state is selected by the key carried by the very payload that is then applied to it",
+                      sites=[t["sp"]], got={"key": key, "applied": [render(u[2])[:120] for u in users]}, key="routing")
+    ctx.floor("keyed state selections in update_from_account", n, 6)
+    ai = ctx.fbody(name="asset_index_mut", self_adt="barter::engine::state::asset::AssetStates", trait="")
+    ii = ctx.fbody(name="instrument_index_mut", self_adt="barter::engine::state::instrument::InstrumentStates", trait="")
+    for nm, fb in (("AssetStates::asset_index_mut", ai), ("InstrumentStates::instrument_index_mut", ii)):
+        look = [render(tm) for bi, t, tm in fb.real_calls() if mir._strip_generics(tm[1]).endswith("::get_index_mut")]
+        ctx.check(nm, look == ["IndexMap::get_index_mut(self.0, key.0)"], "positional lookup by the given index", got=look, key="lookup")
+
+
 RULES = [
+    ("R7", "engine routing: account events select asset / instrument state by their own key", r7),
     ("IDX.R1", "positional use of a global index only on tables aligned with IndexedInstruments", r1),
     ("IDX.R2", "aligned tables: reviewed constructors, order/length-preserving fill chain, never shifted", r2),
     ("R4", "ExecutionInstrumentMap: name->index and index->name tables are inverse views of the same pairs; keyed lookups", r4),
